@@ -602,3 +602,17 @@ void h_createKeySwitchKey_unbounded(void) {
     VERIF_REACH();
 }
 #endif
+
+#ifdef H_POLYUNIFORM
+/* torusPolynomialUniform: every coefficient of a TLWE mask polynomial is one fresh draw from the uniform torus sampler */
+#include "extracted.inc"
+void h_torusPolynomialUniform(void) {
+    int32_t N; __CPROVER_assume(N >= 1 && N <= VERIF_NMAX);
+    TorusPolynomial p; *(int32_t *)&p.N = N; p.coefsT = verif_alloc((size_t)N * sizeof(Torus32));
+    SAMPLERS_RESET();
+    torusPolynomialUniform(&p);
+    __CPROVER_assert(g_n_uniform_t32 == N && g_n_normal == 0 && g_n_uniform_int == 0, "one uniform torus draw per coefficient, nothing else drawn");
+    free(p.coefsT);
+    VERIF_REACH();
+}
+#endif
